@@ -248,7 +248,12 @@ def main():
     jobs = [j for j in build_jobs(rng, c.thorough) if j.fmt == 0]
     tj = text_jobs(rng, c.thorough)
     tot = run_jobs(c, exe, jobs + tj, 'judge', 'c06')
+    import neighbour
+    nb = neighbour.run_neighbours(c, exe, True)
+    tot['evaluations'] = tot.get('evaluations', 0) + nb.get('evaluations', 0)
     c.coverage.update({
+        'two_field_sets': {'set_decodes_compared_with_the_fields_alone': int(nb.get('set_decodes', 0)), 'set_texts_encoded_back': int(nb.get('set_encodes', 0)),
+                           'second_field_x_predecessor_pairs': int(nb.get('neighbour_pairs', 0))},
         'evaluations': int(tot.get('evaluations', 0)),
         'distinct_nontrivial': int(tot.get('nontrivial', 0)),
         'rule': 'same raw-pattern workload as C05 (exhaustive 1-/2-byte sweeps, all days 2000-2099, boundary+random wide patterns): '
